@@ -30,7 +30,9 @@ var brokerProfiles = map[string]brokerProfile{
 func init() {
 	for name := range brokerProfiles {
 		n := name
-		gens[n] = func(seed int64, cnt int, tier string, w *bufio.Writer) { genBroker(brokerProfiles[n], seed, cnt, tier, w) }
+		gens[n] = func(seed int64, cnt int, tier string, w *bufio.Writer) {
+			genBroker(brokerProfiles[n], seed, cnt, tier, w)
+		}
 	}
 }
 
@@ -54,9 +56,9 @@ type brokerGen struct {
 	// known-finding classes confined to dedicated episodes (allowDollar: no finding any more since
 	// B4 was repaired; '$' levels and '$' topics stay in episodes of their own)
 	allowEmpty, allowDollar, allowOverlap, allowBadFilter bool
-	thorough bool
-	lastConnect map[string]string
-	out2 map[int][]int // subscriber conn -> QoS 2 ids the broker sent it (for PUBREC/PUBCOMP answers)
+	thorough                                              bool
+	lastConnect                                           map[string]string
+	out2                                                  map[int][]int // subscriber conn -> QoS 2 ids the broker sent it (for PUBREC/PUBCOMP answers)
 }
 
 func (g *brokerGen) emit(format string, a ...interface{}) {
